@@ -8,7 +8,7 @@ package goja
 // bytes it reaches through unsafe pointer arithmetic, and its element width. Uninterpreted; tied
 // to the owning typedArrayObject by specTAWF.
 func specTABuf(t typedArray) *arrayBufferObject { return nil }
-func specTAElemSize(t typedArray) int            { return 0 }
+func specTAElemSize(t typedArray) int           { return 0 }
 
 // specScale: n elements of width es in bytes (es is 1, 2, 4 or 8; kept linear for the solvers).
 func specScale(n, es int) int {
